@@ -526,3 +526,59 @@ def run_c13(ctx):
         ctx.check(ok, "SHORT", "Ast::%s" % name, detail,
                   "Ast::%s does not have the documented short-circuit shape (%d recursive evals, %d from_bool; %s)" % (name, len(rec), len(fb), detail),
                   ev.loc(), fn=ev.name)
+
+
+def op_typed(ctx, rule="OP-TYPED"):
+    """C13: results are typed by both operands; constructors fold only literals and build nothing else"""
+    prog = ctx.prog
+    ctx.rule(rule, "in BinOp::eval's arithmetic, bitwise and shift arms an Int result is produced only when BOTH operands are Int (a Str result only when both are Str, under Add); every other "
+                   "operand combination yields Null; UnOp::eval's Neg/BitNot yield Int only for an Int operand. Expr::unop / Expr::binop either fold Literal operands through eval or wrap "
+                   "the operands unchanged - no other rewriting at construction")
+    f = prog.fn("msi::internal::expr::BinOp::eval")
+    S = Sym(prog, f)
+    vs = tables.enum_variants(prog, "msi", BINOP)
+    arith = {d for d, n in vs.items() if n in ("Add", "Sub", "Mul", "Div", "BitAnd", "BitOr", "BitXor", "Shl", "Shr")}
+    n = 0
+    for bl in f.blocks:
+        if bl["cleanup"]:
+            continue
+        for s in bl["stmts"]:
+            r = s["rhs"]
+            if s["lhs"]["l"] == 0 and r["rv"] == "agg" and (r.get("adt") or "").endswith("value::Value") and r.get("variant") in ("Int", "Str"):
+                facts = {e: tr for (e, tr, g) in S.bool_facts_at(bl["id"])}
+                arm = facts.get("discr(*p1)")
+                if not arm or arm[1] not in arith:
+                    continue
+                n += 1
+                want = ("==", 1) if r["variant"] == "Int" else ("==", 2)
+                ok = facts.get("discr(tuple{p2,p3}.0)") == want and facts.get("discr(tuple{p2,p3}.1)") == want
+                if r["variant"] == "Str":
+                    ok = ok and vs.get(arm[1]) == "Add"
+                ctx.check(ok, rule, "%s arm: %s result needs two %s operands" % (vs.get(arm[1]), r["variant"], r["variant"]), "",
+                          "BinOp::%s produces a %s result although not both operands are known to be %s (facts %s): operands of the wrong type must give null" % (
+                              vs.get(arm[1]), r["variant"], r["variant"], {k: v for k, v in facts.items() if k.startswith("discr(tuple")}), f.loc(s["sp"]), fn=f.name,
+                          key="%s|%s|%s" % (rule, vs.get(arm[1]), r["variant"]))
+    ctx.floor(rule, "typed results in BinOp::eval", n, 10)
+    g = prog.fn("msi::internal::expr::UnOp::eval")
+    Sg = Sym(prog, g)
+    uv = tables.enum_variants(prog, "msi", UNOP)
+    for bl in g.blocks:
+        if bl["cleanup"]:
+            continue
+        for s in bl["stmts"]:
+            r = s["rhs"]
+            if s["lhs"]["l"] == 0 and r["rv"] == "agg" and (r.get("adt") or "").endswith("value::Value") and r.get("variant") == "Int":
+                facts = {e: tr for (e, tr, gg) in Sg.bool_facts_at(bl["id"])}
+                arm = facts.get("discr(*p1)")
+                ok = facts.get("discr(p2)") == ("==", 1)
+                ctx.check(ok, rule, "UnOp %s: Int result needs an Int operand" % (uv.get(arm[1]) if arm else "?"), "", "UnOp::eval produces an Int for a non-Int operand", g.loc(s["sp"]), fn=g.name)
+    for folder, wrap, nargs in (("msi::internal::expr::Expr::unop", "UnOp", 1), ("msi::internal::expr::Expr::binop", "BinOp", 2)):
+        h = prog.fn(folder)
+        Sh = Sym(prog, h)
+        built = sorted({s["rhs"]["variant"] for bl in h.blocks if not bl["cleanup"] for s in bl["stmts"] if s["rhs"]["rv"] == "agg" and (s["rhs"].get("adt") or "").endswith("expr::Ast")})
+        sws = sorted({Sh.val(bl["term"]["discr"]) for bl in h.blocks if not bl["cleanup"] and bl["term"]["t"] == "switch"})
+        okd = all(re.fullmatch(r"discr\((p2|tuple\{p2,p3\}\.[01])\)", x) or x.startswith("discr(call@") or re.fullmatch(r"_\d+", x) for x in sws)
+        cmpc = [short(cname(prog, t)) for b, t in h.calls() if re.search(r"PartialEq|PartialOrd", t.get("callee") or "")]
+        ctx.check(built == sorted(["Literal", wrap]) and okd and not cmpc, rule, "%s builds Literal(eval(..)) or %s(..) only" % (short(folder), wrap), "builds %s" % built,
+                  "%s builds %s, branches on %s and compares with %s: constructors must only fold literals or wrap their operands (any other simplification makes built and lazily "
+                  "evaluated expressions differ)" % (short(folder), built, sws, cmpc), h.loc(), fn=folder, key="%s|%s" % (rule, short(folder)))
